@@ -77,21 +77,22 @@ type inRec struct {
 }
 
 type JoinTrace struct {
-	Rejected     string // constructor error, if any
-	T0           int64
-	In           []inRec
-	InData       []int
-	Out          []outRec
-	Closed       bool  // output observed closed
-	ClosedAt     int64 // stamp
-	InputClosed  int64 // stamp taken before close(input)
-	StuckMsg     string
-	ProducerDone bool
-	ExtraOutput  string // something appeared on Output() between delivery and release
-	StopCalled   int64
-	StopRet      int64 // -1 if Stop did not return within the bound
-	AfterStop    string
-	Events       int
+	Rejected        string // constructor error, if any
+	T0              int64
+	In              []inRec
+	InData          []int
+	Out             []outRec
+	Closed          bool  // output observed closed
+	ClosedAt        int64 // stamp
+	InputClosed     int64 // stamp taken before close(input)
+	StuckMsg        string
+	ProducerDone    bool
+	ExtraOutput     string // something appeared on Output() between delivery and release
+	StopCalled      int64
+	StopRet         int64 // -1 if Stop did not return within the bound
+	AfterStop       string
+	afterStopSlices int
+	Events          int
 }
 
 type joinSys struct {
@@ -209,6 +210,12 @@ func runJoin(sc JoinScenario, inBubble bool, rng *rand.Rand) *JoinTrace {
 		maxWait = 20 * time.Second
 	}
 
+	// bound for Stop() to return / the closure to arrive after a stop or cancel
+	stopBound := time.Millisecond
+	if sc.Real {
+		stopBound = 10 * time.Second
+	}
+
 	abort := make(chan struct{})
 	var wg sync.WaitGroup
 	// producer
@@ -272,8 +279,7 @@ func runJoin(sc JoinScenario, inBubble bool, rng *rand.Rand) *JoinTrace {
 		select {
 		case <-ret:
 			tr.StopRet = now()
-			// when Stop has returned the output must be closed (possibly after buffered slices)
-		case <-time.After(maxWait):
+		case <-time.After(stopBound):
 			tr.StopRet = -1
 		}
 	}
@@ -282,7 +288,11 @@ func runJoin(sc JoinScenario, inBubble bool, rng *rand.Rand) *JoinTrace {
 	defer timer.Stop()
 recvLoop:
 	for {
-		if sc.Consumer != "eager" && k < len(sc.ConsDelay) && sc.ConsDelay[k] > 0 {
+		if stopIssued {
+			// after a stop / cancel the consumer just drains: whatever is still buffered, then
+			// the closure, each within the bound
+			maxWait = stopBound
+		} else if sc.Consumer != "eager" && k < len(sc.ConsDelay) && sc.ConsDelay[k] > 0 {
 			time.Sleep(time.Duration(sc.ConsDelay[k]))
 		}
 		if sc.Consumer == "retaining" && !sc.NoCopy && len(tr.Out) > 0 && rng.IntN(2) == 0 {
@@ -314,6 +324,14 @@ recvLoop:
 			tr.ClosedAt = now()
 			break
 		}
+		if stopIssued && sc.StopKind == "stop" && tr.StopRet >= 0 {
+			tr.afterStopSlices++
+			if tr.afterStopSlices > 1 {
+				// the output buffer of v1 join holds one slice: more than one after Stop returned
+				// means the discipline kept writing
+				tr.AfterStop = fmt.Sprintf("%d slices were received after Stop() had returned (output buffer capacity is 1)", tr.afterStopSlices)
+			}
+		}
 		rec := outRec{Recv: now(), Data: slices.Clone(s), Full: slices.Clone(s[:cap(s)]), RelStart: -1, slice: s}
 		rec.Ptr, rec.Cap = sliceID(s)
 		tr.Out = append(tr.Out, rec)
@@ -325,7 +343,7 @@ recvLoop:
 			}
 			issueStop()
 		}
-		if sys.release != nil && !(stopIssued && sc.StopBeforeRelease) {
+		if sys.release != nil && !stopIssued { // after a stop / cancel nobody waits for a release signal any more
 			hold := int64(0)
 			if k < len(sc.Hold) {
 				hold = sc.Hold[k]
@@ -518,6 +536,15 @@ func judgeJoin(sc JoinScenario, tr *JoinTrace, inBubble bool) (fs []joinFinding,
 		cat = append(cat, o.Data...)
 	}
 	outStart[len(tr.Out)] = len(cat)
+	if stopped && tr.StopRet == -1 {
+		add("C16", "stop-hangs", "v1 join: Stop() did not return within the bound after it was called at %dns (slices received so far: %d)", tr.StopCalled, len(tr.Out))
+	}
+	if stopped && tr.StuckMsg != "" {
+		add("C16", "no-closure-after-stop", "v1 join: %s injected at %dns but the output was not closed within the bound: %s", sc.StopKind, tr.StopCalled, tr.StuckMsg)
+	}
+	if stopped && tr.AfterStop != "" {
+		add("C16", "open-after-stop", "v1 join: %s", tr.AfterStop)
+	}
 	if stopped {
 		// C16: whatever was delivered is an in-order duplicate-free subsequence of what was
 		// written (elements are written in increasing order 0,1,2,...)
